@@ -413,3 +413,150 @@ def prefix_to(cnt: int) -> list:
 def all_requests():
     for cmd, secret, cookie, frame, pin in itertools.product(CMDS, SECRETS, COOKIES, FRAMES, PINS):
         yield {"cmd": cmd, "secret": secret, "cookie": cookie, "frame": frame, "pin": pin}
+
+
+# --------------------------------------------------------------------------- ProxyFix / server fallback (growth)
+PF_KEYS = (("remote", "REMOTE_ADDR"), ("scheme", "wsgi.url_scheme"), ("host", "HTTP_HOST"), ("sname", "SERVER_NAME"),
+           ("sport", "SERVER_PORT"), ("script", "SCRIPT_NAME"))
+PF_HDRS = (("for", "HTTP_X_FORWARDED_FOR"), ("proto", "HTTP_X_FORWARDED_PROTO"), ("host", "HTTP_X_FORWARDED_HOST"),
+           ("port", "HTTP_X_FORWARDED_PORT"), ("prefix", "HTTP_X_FORWARDED_PREFIX"))
+
+
+def _env_record(d: dict) -> dict:
+    """projection of a WSGI environ (or the proxy_fix.orig dict) on the six keys ProxyFix may rewrite"""
+    rec = {}
+    for k, wk in PF_KEYS:
+        v = d.get(wk)
+        if k == "host":
+            rec["hostp"] = v is not None
+        rec[k] = cps(v if isinstance(v, str) else "")
+    return rec
+
+
+def _req_result(fn):
+    r = _result(fn)
+    return {"kind": r["kind"], "v": r["v"], "exc": r["exc"], "code": r["code"]}
+
+
+def proxy_case(case: dict) -> dict:
+    """case = {cfg: {x_for..x_prefix}, env: {remote, scheme, host|None, sname, sport, script},
+               hd: {for|proto|host|port|prefix: str|None}, trusted: [str], extras: [str]|None, exp: record|None}
+    Runs the real ProxyFix in front of a capturing application, then asks a Request built from the rewritten
+    environ (with trusted_hosts) for host / host_url / root_url / access_route; the twin run has `extras`
+    put in front of every X-Forwarded-* list (what a client can do).  Returns the trace line (without t/i)."""
+    from werkzeug.middleware.proxy_fix import ProxyFix
+    from werkzeug.wrappers import Request
+
+    cfg, env, hd, trusted = case["cfg"], case["env"], case["hd"], case["trusted"]
+
+    def environ_for(headers: dict) -> dict:
+        e = {"REQUEST_METHOD": "GET", "PATH_INFO": "/p", "QUERY_STRING": "", "SERVER_PROTOCOL": "HTTP/1.1"}
+        for k, wk in PF_KEYS:
+            if env.get(k) is not None:
+                e[wk] = env[k]
+        for k, wk in PF_HDRS:
+            if headers.get(k) is not None:
+                e[wk] = headers[k]
+        return e
+
+    def through_proxy(headers: dict):
+        seen = {}
+
+        def app(environ, start_response):
+            seen["environ"] = dict(environ)
+            return []
+
+        e = environ_for(headers)
+        ProxyFix(app, **cfg)(e, lambda *a: None)
+        return e, seen["environ"]
+
+    def request_of(after: dict):
+        req = Request(dict(after))
+        req.trusted_hosts = list(trusted)
+        return req
+
+    before, after = through_proxy(hd)
+    req = request_of(after)
+    r = _req_result(lambda: req.host)
+    rurl = _req_result(lambda: request_of(after).host_url)
+    rroot = _req_result(lambda: request_of(after).root_url)
+    try:
+        route = [cps(x) for x in req.access_route]
+    except Exception as e:
+        route = [cps("!" + type(e).__name__)]
+    extras = case.get("extras")
+    r2 = r
+    if extras:
+        twin = {k: (", ".join(extras) + ", " + v if v else v) for k, v in hd.items()}
+        r2 = _req_result(lambda: request_of(through_proxy(twin)[1]).host)
+    texts = [env.get("host") or "", env.get("sname") or "", *trusted, *[v for v in hd.values() if v]]
+    if hd.get("host"):
+        texts += hd["host"].split(",")
+    out = _env_record(after)
+    return {"op": "pfix", "cfg": cfg, "env": _env_record(environ_for({})),
+            "hd": {k: {"p": hd.get(k) is not None, "text": cps(hd.get(k) or "")} for k, _ in PF_HDRS},
+            "out": out, "orig": _env_record(after.get("werkzeug.proxy_fix.orig", {})),
+            "trusted": [cps(x) for x in trusted], "tab": idna_tab([x.strip() for x in texts]),
+            "r": r, "rurl": rurl, "rroot": rroot, "has_twin": bool(extras), "extras": [cps(x) for x in (extras or [])], "r2": r2,
+            "route": route, "rremote": cps(req.remote_addr or ""),
+            "has_exp": case.get("exp") is not None, "exp": case.get("exp") or out}
+
+
+PF_HOSTS = ["trusted.example", "sub.trusted.example", "evil.example", "trusted.example.evil.com", "eviltrusted.example",
+            "[::1]", "[::1]:8443", "[::2]", "[::2]:443", "TRUSTED.example", "trusted.example:8080", "trusted.example:443",
+            "evil.example:80", "a..b", "bücher.example", "::1", "trusted.example:abc", "[::1]x", "[::1"]
+PF_TRUSTED = [["trusted.example"], [".trusted.example", "[::1]"], ["trusted.example:8080", "127.0.0.1"], ["[::1]"],
+              ["bücher.example", "internal"], ["internal"]]
+PF_EXTRAS = [["evil.example"], ["trusted.example"], ["[::1]", "evil.example:80"], ['"'], ['"evil.example'], ['x"', "trusted.example"],
+             ['trusted.example, "'], ["", ""], [" "], ['"trusted.example", "'], ["\\"], ['"\\'], ["trusted.example\\"]]
+PF_SEPS = [", ", ",", " , ", ",\t", " ,"]
+
+
+def _join(rng, vals):
+    out = ""
+    for i, v in enumerate(vals):
+        out += (rng.choice(PF_SEPS) if i else "") + v
+    return out
+
+
+def proxy_random_cases(rng, n: int) -> list[dict]:
+    cases = []
+    for _ in range(n):
+        cfg = {k: rng.choice([0, 0, 1, 1, 2, 3]) for k in ("x_for", "x_proto", "x_host", "x_port", "x_prefix")}
+        if rng.random() < 0.6:
+            cfg["x_host"] = rng.choice([1, 1, 2])
+        hd = {
+            "for": _join(rng, [rng.choice(["1.1.1.1", "10.0.0.2", "::1", "unknown"]) for _ in range(rng.randint(0, 3))]) if rng.random() < 0.7 else None,
+            "proto": _join(rng, [rng.choice(["https", "http", "wss", "ftp", "HTTPS"]) for _ in range(rng.randint(0, 3))]) if rng.random() < 0.7 else None,
+            "host": _join(rng, [rng.choice(PF_HOSTS) for _ in range(rng.randint(0, 4))]) if rng.random() < 0.9 else None,
+            "port": _join(rng, [rng.choice(["443", "80", "8443", "abc", "8080"]) for _ in range(rng.randint(0, 3))]) if rng.random() < 0.5 else None,
+            "prefix": _join(rng, [rng.choice(["/a", "/b/c", "x"]) for _ in range(rng.randint(0, 2))]) if rng.random() < 0.3 else None,
+        }
+        if rng.random() < 0.1 and hd["host"]:
+            hd["host"] += rng.choice([",", ", ", ",,"])
+        env = {"remote": "10.9.9.9", "scheme": rng.choice(["http", "https"]),
+               "host": rng.choice([None, "internal:8000", "trusted.example", "evil.example", "internal", ""]),
+               "sname": rng.choice(["internal", "::1", "trusted.example", "evil.example"]),
+               "sport": rng.choice(["80", "8000", "443", "abc"]), "script": rng.choice(["", "/app"])}
+        cases.append({"cfg": cfg, "env": env, "hd": hd, "trusted": rng.choice(PF_TRUSTED),
+                      "extras": rng.choice(PF_EXTRAS) if rng.random() < 0.8 else None, "exp": None})
+    return cases
+
+
+def fallback_cases() -> list[dict]:
+    """(2) no Host header: SERVER_NAME / SERVER_PORT stand in for it and are validated (ProxyFix inactive, and
+    active with X-Forwarded-Port only, which rewrites SERVER_PORT)."""
+    zero = {"x_for": 0, "x_proto": 0, "x_host": 0, "x_port": 0, "x_prefix": 0}
+    none = {"for": None, "proto": None, "host": None, "port": None, "prefix": None}
+    cases = []
+    for sname in ["trusted.example", "sub.trusted.example", "evil.example", "eviltrusted.example", "trusted.example.evil.com",
+                  "::1", "::2", "[::1]", "internal", "a..b", "TRUSTED.example", "bücher.example", ""]:
+        for sport in ["80", "443", "8080", "abc", ""]:
+            for scheme in ["http", "https"]:
+                for trusted in PF_TRUSTED[:4]:
+                    env = {"remote": "10.9.9.9", "scheme": scheme, "host": None, "sname": sname, "sport": sport, "script": ""}
+                    cases.append({"cfg": zero, "env": env, "hd": none, "trusted": trusted, "extras": None, "exp": None})
+                env = {"remote": "10.9.9.9", "scheme": scheme, "host": None, "sname": sname, "sport": sport, "script": ""}
+                cases.append({"cfg": dict(zero, x_port=1), "env": env, "hd": dict(none, port="8080, 443"),
+                              "trusted": ["trusted.example", "[::1]"], "extras": ["80"], "exp": None})
+    return cases
